@@ -18,6 +18,23 @@ Theorem string_escaping : forall s rest,
 Proof. exact lex_str_quote_body. Qed.
 Print Assumptions string_escaping.
 
+(* the same for strings written by encoding/json.Marshal (labels, label values, tempo tags after fix
+   #24): the reader returns the string with every byte that is not part of a valid UTF-8 sequence
+   replaced by U+FFFD (JSON text is UTF-8), and exactly the original bytes for ASCII strings *)
+Theorem string_escaping_gojson : forall s rest,
+  lex_str (gojson_body s ++ String (chr 34) rest)%string = Some (sanitize s, rest).
+Proof. intros s rest. exact (lex_str_gj (String.length s) s rest (le_n _)). Qed.
+Print Assumptions string_escaping_gojson.
+
+Theorem gojson_ascii_lossless : forall s, all_ascii s = true -> sanitize s = s.
+Proof. exact sanitize_ascii. Qed.
+Print Assumptions gojson_ascii_lossless.
+Example gojson_utf8_lossless :
+  let s := String (chr 195) (String (chr 169) (String (chr 226) (String (chr 128) (String (chr 168)
+             (String (chr 240) (String (chr 159) (String (chr 152) (String (chr 128) "<&>")))))))) in
+  sanitize s = s /\ all_ascii "a""\<" = true.
+Proof. split; reflexivity. Qed.
+
 (* any document whose numbers are JSON numbers, serialised canonically and rendered the jsoniter
    way, is read back as exactly that document (lexer and parser are inverse to the printer) *)
 Theorem reader_inverts_printer : forall d, nums_ok d = true -> parse_bytes (render (tokens_of d)) = Some d.
@@ -49,6 +66,22 @@ Example matrix_guard_met :
   let e := {| e_fp := 0; e_lbls := [("a", "b")]; e_ts := 1500; e_msg := ""; e_tsf := "0.000002"; e_val := "1e+21"; e_err := ENone |} in
   forallb (forallb no_fail) [[e]; []; [e]] = true /\ forallb (fun e => num_ok (e_tsf e)) (rows_matrix [[e]; []; [e]]) = true.
 Proof. split; reflexivity. Qed.
+
+(* list endpoints. Tempo tag names / tag values (TempoController.Tags, Values) and Loki/Prometheus
+   labels / label values (GenericLabelReq): for every list of byte strings the body is one document
+   holding the (sanitised) strings in order *)
+Theorem doc_wellformed_tempo_tags : forall key xs,
+  parse_bytes (render (enc_tempo_list key xs)) = Some (doc_tempo_list key xs).
+Proof. exact tempo_list_bytes. Qed.
+Print Assumptions doc_wellformed_tempo_tags.
+
+Theorem doc_wellformed_labels : forall xs, parse_bytes (render (enc_labels xs)) = Some (doc_labels xs).
+Proof. exact labels_bytes. Qed.
+Print Assumptions doc_wellformed_labels.
+
+(* regression witness of defect #24: what strconv.Quote wrote for the tag a<01>b is not JSON *)
+Example strconv_quote_is_not_json : parse_bytes "{""tagNames"": [""a\x01b""]}" = None.
+Proof. vm_compute. reflexivity. Qed.
 
 (* content: reading the (labels, value) rows back out of the document gives every input row
    exactly once and in input order (values), with the labels of its own entry whenever labels are
